@@ -159,7 +159,7 @@ func (m *Model) checkC01(i int, pre, post view, kind string) []common.Violation 
 			continue
 		}
 		m.counters["C01.newly-confirmed"]++
-		if !x.Transaction.IsSpiceTransfer() || m.isGenesis(x) || m.trusted(post, x.SignerPublicAddress) {
+		if !world.IsTransfer(x.Transaction) || m.isGenesis(x) || m.trusted(post, x.SignerPublicAddress) {
 			continue
 		}
 		m.counters["C01.tested"]++
@@ -228,7 +228,7 @@ func (m *Model) checkC02(i int, v view) []common.Violation {
 			onlyConcurrent := true
 			for h := range set {
 				x := all[h]
-				if x.Transaction.IssuerAddress == w && x.Transaction.IsSpiceTransfer() {
+				if x.Transaction.IssuerAddress == w && world.IsTransfer(x.Transaction) {
 					if ok, _, _ := m.covered(x, v.stored); !ok {
 						onlyConcurrent = false
 					}
@@ -395,7 +395,7 @@ func (m *Model) checkC09(i int, pre *view, v view, e, res string) []common.Viola
 			if pv.Weight > mw {
 				mw = pv.Weight
 			}
-			if pv.Transaction.IsSpiceTransfer() && !m.isGenesis(pv) && !m.trusted(*pre, pv.SignerPublicAddress) {
+			if world.IsTransfer(pv.Transaction) && !m.isGenesis(pv) && !m.trusted(*pre, pv.SignerPublicAddress) {
 				if ok, _, _ := m.covered(pv, pre.stored); !ok {
 					out = append(out, viol("C09", "C09.created", "C09.created-on-invalid-tip", fmt.Sprintf("node %d created %s on tip %s which fails the funds test", i, R.Name(x.Hash), R.Name(p)), nil))
 				}
@@ -428,7 +428,7 @@ func (m *Model) checkC10(i int, v view) []common.Violation {
 		if v.S.Genesis != "" && (x.Transaction.IssuerAddress == v.S.Genesis || world.KeyOf(x.Transaction.IssuerAddress) == world.KeyOf(v.S.Genesis)) {
 			out = append(out, viol("C10", "C10.golden", "C10.genesis-wallet-spends", fmt.Sprintf("node %d holds %s issued by the genesis wallet", i, R.Name(h)), nil))
 		}
-		if x.Transaction.IsEmpty() {
+		if world.IsEmptyTx(x.Transaction) {
 			out = append(out, viol("C10", "C10.nonempty", "C10.empty-transaction-sealed", fmt.Sprintf("node %d holds %s with neither data nor spice", i, R.Name(h)), nil))
 		}
 	}
@@ -621,7 +621,7 @@ func SnapshotOracles(w *world.LW, n *world.Node, props ...string) []common.Viola
 			conf := v.confirmed()
 			for h := range conf {
 				x := v.all()[h]
-				if !x.Transaction.IsSpiceTransfer() || m.isGenesis(x) || m.trusted(v, x.SignerPublicAddress) {
+				if !world.IsTransfer(x.Transaction) || m.isGenesis(x) || m.trusted(v, x.SignerPublicAddress) {
 					continue
 				}
 				if ok, in, need := m.covered(x, v.stored); !ok {
